@@ -82,6 +82,8 @@ trait Ic {
     fn is_empty(&self) -> bool;
     fn index(&self, i: usize) -> usize;
     fn iter_take(&self, n: usize) -> Vec<usize>;
+    /// (iter().skip(k) collected, iter().nth(k) followed by the rest, iter().step_by(2) collected), each bounded
+    fn iter_adaptors(&self, k: usize, bound: usize) -> (Vec<usize>, Vec<usize>, Vec<usize>);
     fn clear(&mut self);
     fn reserve(&mut self, n: usize);
     fn heap(&self) -> Vec<(usize, usize)>;
@@ -117,6 +119,16 @@ impl Ic for Stride {
     }
     fn iter_take(&self, n: usize) -> Vec<usize> {
         self.iter().take(n).collect()
+    }
+    fn iter_adaptors(&self, k: usize, bound: usize) -> (Vec<usize>, Vec<usize>, Vec<usize>) {
+        let a = self.iter().skip(k).take(bound).collect();
+        let mut it = self.iter();
+        let mut b: Vec<usize> = it.nth(k).into_iter().collect();
+        for x in it.take(bound) {
+            b.push(x);
+        }
+        let c = self.iter().step_by(2).take(bound).collect();
+        (a, b, c)
     }
     fn clear(&mut self) {
         Stride::clear(self)
@@ -162,6 +174,16 @@ macro_rules! ic_container {
             }
             fn iter_take(&self, n: usize) -> Vec<usize> {
                 IndexContainer::iter(self).take(n).collect()
+            }
+            fn iter_adaptors(&self, k: usize, bound: usize) -> (Vec<usize>, Vec<usize>, Vec<usize>) {
+                let a = IndexContainer::iter(self).skip(k).take(bound).collect();
+                let mut it = IndexContainer::iter(self);
+                let mut b: Vec<usize> = it.nth(k).into_iter().collect();
+                for x in it.take(bound) {
+            b.push(x);
+        }
+                let c = IndexContainer::iter(self).step_by(2).take(bound).collect();
+                (a, b, c)
             }
             fn clear(&mut self) {
                 Storage::clear(self)
@@ -373,6 +395,21 @@ impl IdxScen {
                     let it = c.iter_take(n + 1);
                     if it != model {
                         return Err(format!("iter() yields {:?}… ({} items) expected {:?}… ({n} items)", tail(&it), it.len(), tail(&model)));
+                    }
+                    if n > 0 {
+                        // adaptors with possible fast paths: skip, nth, step_by, at a rotating position
+                        let k = step % n;
+                        let (a, b, s2) = c.iter_adaptors(k, n + 1);
+                        if a != model[k..] {
+                            return Err(format!("iter().skip({k}) yields {:?} expected {:?}", tail(&a), tail(&model[k..])));
+                        }
+                        if b != model[k..] {
+                            return Err(format!("iter().nth({k}) then the rest yields {:?} expected {:?}", tail(&b), tail(&model[k..])));
+                        }
+                        let want: Vec<usize> = model.as_slice().iter().copied().step_by(2).collect();
+                        if s2 != want {
+                            return Err(format!("iter().step_by(2) yields {:?} expected {:?}", tail(&s2), tail(&want)));
+                        }
                     }
                 }
                 Ok(())
